@@ -26,6 +26,12 @@ pub(crate) struct WeakCounterMarker {
 pub(crate) struct OverflowError;
 
 impl WeakCounterMarker {
+    #[cfg(feature = "verif-hooks")]
+    #[inline]
+    pub(crate) fn verif_raw(&self) -> u16 {
+        self.weak_counter.get()
+    }
+
     #[inline]
     #[must_use]
     pub(crate) fn new(accessible: bool) -> WeakCounterMarker {
